@@ -192,15 +192,25 @@ def Pipeline.surgery (p : Pipeline) (keep : List Gi) (extra : List Goroutine) (n
 def applyPick (m : String → String → Bool) (p : Pipeline) (keep : List Gi) (site : String) (i : Nat) : Pipeline :=
   { p with gs := p.gs.zipIdx.map fun x =>
       if !keep.contains x.2 then x.1 else
-      { x.1 with nodes := x.1.nodes.zipIdx.map fun nd =>
+      -- successors and their decision lists are filtered TOGETHER (several picks may resolve one node)
+      let keptAt (nd : Node × Nat) : List (Pc × List (String × Nat)) :=
+        match nd.1 with
+        | .branch ns =>
+          let conds := match x.1.conds[nd.2]? with | some c => c | none => []
+          ns.zipIdx.filterMap fun s =>
+            let path := match conds[s.2]? with | some c => c | none => []
+            if path.all (fun d => !m d.1 site || d.2 == i) then some (s.1, path) else none
+        | _ => []
+      { x.1 with
+        nodes := x.1.nodes.zipIdx.map fun nd =>
           match nd.1 with
-          | .branch ns =>
-            let conds := match x.1.conds[nd.2]? with | some c => c | none => []
-            let kept := ns.zipIdx.filterMap fun s =>
-              let path := match conds[s.2]? with | some c => c | none => []
-              if path.all (fun d => !m d.1 site || d.2 == i) then some s.1 else none
-            if kept.isEmpty then nd.1 else .branch kept
-          | _ => nd.1 } }
+          | .branch _ => if (keptAt nd).isEmpty then nd.1 else .branch ((keptAt nd).map (·.1))
+          | _ => nd.1
+        conds := x.1.nodes.zipIdx.map fun nd =>
+          let old := match x.1.conds[nd.2]? with | some c => c | none => []
+          match nd.1 with
+          | .branch _ => if (keptAt nd).isEmpty then old else (keptAt nd).map (·.2)
+          | _ => old } }
 
 inductive CtlOp where
   | feed (i : Nat) | go | cancel | release
